@@ -1,0 +1,302 @@
+//go:build verif
+
+package batcher
+
+// Contracts for govc (contract-based deductive verification; see /verif/DESIGN.md, property C10).
+// This file holds only comments and is compiled only with -tags verif. Same kernel as events/broadcaster (C11):
+//   ghost state protected by b.lock: eventCh.pushed / eventCh.npush (sequence of values execute has put into this
+//   subscriber's buffer), eventCh.sub (the subscriber channel its forwarder serves), Batcher.slot (id -> index, the
+//   injectivity witness of [C10.inv.distinct]).
+//   Batch     enqueues ONE fresh item with exactly this key, this value and due time Now()+interval ([C10.batch.item]);
+//             "last value per key, earlier ones suppressed, delivered once when due" is then C06 (Enqueue of an existing
+//             key replaces it, the callback gets the head when due, popped before the call).
+//   execute   (the queue's callback) = Broadcast of i.value: one critical section, every entry once, in order, the
+//             value offered is i.value, each subscriber sequence extended by at most this value at its end.
+//   subscribe / forwarder / exit / Close: as in C11; the exit closes the subscriber channel exactly once
+//             ([C10.exit.closes.sub]: "every subscriber channel has been closed").
+// FAIL (registered known findings): [C10.exec.departure] execute's blocking select has no case that a departing
+// subscriber can trigger (only the buffer send and closeCh), and [C10.close.releases] closeCh is closed under the lock
+// that a blocked execute holds: a subscriber whose context ends with a full buffer wedges the batcher for good.
+
+//@ assume-text channels (Go spec): the values sent on one subscriber buffer (eventCh.ch, capacity 50) are received by its single receiver, the forwarder, exactly once each and in the order of the sends; this links the ghost sequence eventCh.pushed ([C10.exec.*]) to the forwarder's ghost sequence recvd ([C10.fwd.*]) and is not modelled
+//@ assume-text channels: a receive (case) on Batcher.closeCh or ctx.Done() completes only once that channel is closed, because nobody sends on them ([C10.exec.select], [C10.fwd.sends.own], [C10.*.nosend]); stated as `at select assume ... ==> chdone[selchan]` on the statement's own operands; chdone is the monotone ghost "closed"
+//@ assume-text sync.WaitGroup: Wait returns only after every goroutine registered by Add has called Done (not modelled; [C10.sub.registered], [C10.exit.done])
+//@ assume-text events/queue (C06) is relied on through its contracts: Enqueue of an item whose key is queued replaces it, the callback is invoked with the head when due, after it was popped; qkey(i) / qsched(i) of an *item are i.key / unixNano(i.ttl) ([C10.item.key], [C10.item.time] are the bodies of Key / ScheduledTime; the identification with the uninterpreted qkey / qsched is not machine-checked)
+//@ assume-text Batcher.closed (atomic.Bool): the engine treats it as stable within one call; clauses about "not closed" refer to the value the function's own Load returned under the lock (ghost wasclosed)
+
+//@ ghost var chdone [int]bool
+
+//@ type eventCh
+//@   ghost npush int
+//@   ghost pushed [int]tp
+//@   ghost sub int
+
+//@ type Batcher
+//@   ghost slot [int]int
+//@   lock lock protects eventChs currentID slot eventCh.npush eventCh.pushed
+//@   lockinv lock [C10.inv.entries] forall i :: 0 <= i && i < len(self.eventChs) ==> (self.eventChs[i] != nil && allocated(self.eventChs[i]) && self.eventChs[i].id < self.currentID)
+//@   lockinv lock [C10.inv.distinct] forall i :: 0 <= i && i < len(self.eventChs) ==> self.slot[self.eventChs[i].id] == i
+
+//@ func (*item).Key
+//@   tags C10
+//@   requires b != nil
+//@   modifies nothing
+//@   ensures [C10.item.key] result == b.key
+
+//@ func (*item).ScheduledTime
+//@   tags C10
+//@   requires b != nil
+//@   modifies nothing
+//@   ensures [C10.item.time] true
+
+//@ func (*Batcher).Batch
+//@   tags C10
+//@   requires b != nil && b.queue != nil && inv(b.queue) && b.clock != nil
+//@   ghost nenq int
+//@   at entry ghost nenq = 0
+//@   at every before call Enqueue assert [C10.batch.item] arg0 == b.queue && arg1 != nil && fresh(arg1) && arg1.key == key && arg1.value == value && nolocks()
+//@   at store ttl#0 assert [C10.batch.due.stored] arg0 == call_Add_0_result
+//@   at every before call Add assert [C10.batch.due] arg0 == call_Now_0_result && arg1 == b.interval
+//@   at every call Enqueue ghost nenq = nenq + 1
+//@   at every before send assert [C10.batch.nosend] false
+//@   at every select assert [C10.batch.noselect] false
+//@   at every before recv assert [C10.batch.norecv] false
+//@   ensures [C10.batch.once] nenq == 1 && nolocks()
+
+//@ func (*Batcher).execute
+//@   tags C10
+//@   requires b != nil && i != nil
+//@   ghost nvis int
+//@   ghost sentto [int]bool
+//@   ghost snt bool
+//@   ghost wasclosed bool
+//@   ghost checked bool
+//@   at entry ghost nvis = 0
+//@   at entry ghost wasclosed = false
+//@   at entry ghost checked = false
+//@   at every call Load ghost checked = true
+//@   at every select assert [C10.exec.closed.checked] checked && !wasclosed
+//@   at every before call Load assert [C10.exec.closed.underlock] heldw(b.lock) && nvis == 0
+//@   at every call Load ghost wasclosed = res0
+//@   at every call Store assert [C10.closed.monotone] false
+//@   at every call CompareAndSwap assert [C10.closed.monotone] false
+//@   at call Lock#0 label L
+//@   at before call Unlock#0 label U
+//@   loop 0 invariant b == old(b) && i == old(i) && heldw(b.lock) && -1 <= rangeindex && rangeindex < len(b.eventChs) && nvis == rangeindex + 1
+//@   loop 0 invariant b.eventChs == at(L, b.eventChs)
+//@   loop 0 invariant [C10.exec.inv.done] forall j :: 0 <= j && j < nvis ==> (b.eventChs[j].npush == at(L, b.eventChs[j].npush) + (sentto[j] ? 1 : 0) && (sentto[j] ==> b.eventChs[j].pushed[at(L, b.eventChs[j].npush)] == i.value) && (!sentto[j] ==> chdone[b.closeCh]))
+//@   loop 0 invariant [C10.exec.inv.prefix] forall j, k :: (0 <= j && j < len(b.eventChs) && k < at(L, b.eventChs[j].npush)) ==> b.eventChs[j].pushed[k] == at(L, b.eventChs[j].pushed[k])
+//@   loop 0 invariant [C10.exec.inv.todo] forall j :: nvis <= j && j < len(b.eventChs) ==> b.eventChs[j].npush == at(L, b.eventChs[j].npush)
+//@   at every select assert [C10.exec.select] selblocking && selhassend(ev.ch) && selhas(b.closeCh) && (forall c :: selhassend(c) ==> c == ev.ch)
+// statement: "A subscriber whose context ends - even with undelivered events buffered for it - never blocks delivery to the
+// others, later Batch calls or Close": the select must have a receive case besides closeCh that the departing subscriber
+// can make ready without the lock (the broadcaster's closeEventCh). FAILS on the code: known finding.
+//@   ghost noexit int
+//@   at entry ghost noexit = 0
+//@   at every select ghost noexit = noexit + ((exists c :: selhas(c) && c != b.closeCh) ? 0 : 1)
+//@   loop 0 invariant [C10.exec.departure] noexit == 0
+//@   ensures [C10.exec.departure] noexit == 0
+//@   at every select assert [C10.exec.visit] ev == b.eventChs[nvis]
+//@   at every select assume (res0 >= 0 && !selsend && selchan == b.closeCh) ==> chdone[selchan]
+//@   at every select ghost snt = (res0 >= 0 && selsend && selchan == ev.ch)
+//@   at every select ghost sentto = update(sentto, nvis, snt)
+//@   at every select assert [C10.exec.samevalue] (res0 >= 0 && selsend) ==> selsendval == i.value
+//@   at every select ghost ev.pushed = snt ? update(ev.pushed, ev.npush, selsendval) : ev.pushed
+//@   at every select ghost ev.npush = ev.npush + (snt ? 1 : 0)
+//@   at every select ghost nvis = nvis + 1
+//@   at every before send assert [C10.exec.nobaresend] false
+//@   at every before recv assert [C10.exec.nobarerecv] false
+//@   ensures [C10.exec.closed.checked] checked
+//@   ensures [C10.exec.subs] at(U, b.eventChs) == at(L, b.eventChs)
+//@   ensures [C10.exec.closed] wasclosed ==> (nvis == 0 && (forall j :: 0 <= j && j < at(L, len(b.eventChs)) ==> (at(U, b.eventChs[j].npush) == at(L, b.eventChs[j].npush) && at(U, b.eventChs[j].pushed) == at(L, b.eventChs[j].pushed))))
+//@   ensures [C10.exec.all] !wasclosed ==> nvis == at(L, len(b.eventChs))
+//@   ensures [C10.exec.once] !wasclosed ==> (forall j :: 0 <= j && j < at(L, len(b.eventChs)) ==> at(U, b.eventChs[j].npush) == at(L, b.eventChs[j].npush) + (sentto[j] ? 1 : 0))
+//@   ensures [C10.exec.value] !wasclosed ==> (forall j :: (0 <= j && j < at(L, len(b.eventChs)) && sentto[j]) ==> at(U, b.eventChs[j].pushed[at(L, b.eventChs[j].npush)]) == i.value)
+//@   ensures [C10.exec.prefix] forall j, k :: (0 <= j && j < at(L, len(b.eventChs)) && k < at(L, b.eventChs[j].npush)) ==> at(U, b.eventChs[j].pushed[k]) == at(L, b.eventChs[j].pushed[k])
+//@   ensures [C10.exec.skipped] !wasclosed ==> (forall j :: (0 <= j && j < at(L, len(b.eventChs)) && !sentto[j]) ==> (at(L, b.eventChs[j]) != nil && chdone[b.closeCh]))
+
+//@ func (*Batcher).Close
+//@   tags C10
+//@   requires b != nil && b.queue != nil && inv(b.queue)
+//@   requires b.queue.stopped.v == 0 ==> !chdone[b.queue.stopCh]
+//@   ghost waited bool
+//@   ghost nclose int
+//@   ghost won bool
+//@   ghost qclosed bool
+//@   at entry ghost waited = false
+//@   at entry ghost nclose = 0
+//@   at entry ghost won = false
+//@   at entry ghost qclosed = false
+//@   at every call Store assert [C10.closed.monotone] false
+//@   at every before call CompareAndSwap assert [C10.closed.monotone] !arg1 && arg2
+//@   at every call CompareAndSwap ghost won = res0
+//@   at every before call Close assert [C10.close.queue.unlocked] arg0 == b.queue && nolocks()
+//@   at every call Close ghost qclosed = true
+//@   at every before close assert [C10.close.closes] arg0 == b.closeCh && won && nclose == 0
+// statement: "never blocks ... Close": the close signal must be given without the lock a blocked execute holds. FAILS: known finding.
+//@   ghost underlock bool
+//@   at entry ghost underlock = false
+//@   at every before close ghost underlock = (underlock || held(b.lock))
+//@   ensures [C10.close.releases] !underlock
+//@   at every close ghost chdone = update(chdone, arg0, true)
+//@   at every close ghost nclose = nclose + 1
+//@   at every before call Wait assert [C10.close.wait.unlocked] !held(b.lock)
+//@   at every before call Wait assert [C10.close.wait.signalled] b.closed.v != 0 && (won ==> chdone[b.closeCh]) && qclosed
+//@   at every call Wait ghost waited = true
+//@   at every before send assert [C10.close.nosend] false
+//@   at every select assert [C10.close.noselect] false
+//@   at every before recv assert [C10.close.norecv] false
+//@   ensures [C10.close.closed] b.closed.v != 0 && (won ==> chdone[b.closeCh])
+//@   ensures [C10.close.once] nclose == (won ? 1 : 0)
+//@   ensures [C10.close.joined] waited && qclosed && nolocks()
+
+// New is not under contract: the call NewProcessor[K, *item[K, T]] makes the engine instantiate the C06 heap predicates
+// (hord ...) at a pointer type and the translation fails (sort (Array Int Int) vs (Array Int TP)): engine limitation.
+
+//@ func (*Batcher).subscribe
+//@   tags C10
+//@   opt locks=caller
+//@   opt go=ignore
+//@   requires b != nil && heldw(b.lock) && ctx != nil
+//@   requires [C10.sub.inv.entries] forall i :: 0 <= i && i < len(b.eventChs) ==> (b.eventChs[i] != nil && allocated(b.eventChs[i]) && b.eventChs[i].id < b.currentID)
+//@   requires [C10.sub.inv.distinct] forall i :: 0 <= i && i < len(b.eventChs) ==> b.slot[b.eventChs[i].id] == i
+//@   modifies b.eventChs, b.currentID, b.slot, b.eventChs[0:cap(b.eventChs)]
+//@   ghost reg int
+//@   ghost spawned int
+//@   at entry ghost reg = 0
+//@   at entry ghost spawned = 0
+//@   ghost wasclosed bool
+//@   at entry ghost wasclosed = false
+//@   at every before call Load assert [C10.sub.closed.underlock] heldw(b.lock)
+//@   at every call Load ghost wasclosed = res0
+//@   at every call Store assert [C10.closed.monotone] false
+//@   at every call CompareAndSwap assert [C10.closed.monotone] false
+//@   at call Load#0 assume b.currentID < 9223372036854775807
+//@   at call Add#0 ghost reg = reg + arg1
+//@   at every before go assert [C10.sub.registered] reg == spawned + 1
+//@   at every go ghost spawned = spawned + 1
+//@   at store eventChs#0 ghost b.eventChs[len(b.eventChs) - 1].sub = ch
+//@   at store eventChs#0 ghost b.slot = update(b.slot, id, len(b.eventChs) - 1)
+//@   at store eventChs#0 ghost b.eventChs[len(b.eventChs) - 1].npush = 0
+//@   at every before send assert [C10.sub.nosend] false
+//@   at every select assert [C10.sub.noselect] false
+//@   at every before recv assert [C10.sub.norecv] false
+//@   at every before close assert [C10.sub.noclose] false
+//@   ensures heldw(b.lock)
+//@   ensures [C10.sub.inv.entries] forall i :: 0 <= i && i < len(b.eventChs) ==> (b.eventChs[i] != nil && allocated(b.eventChs[i]) && b.eventChs[i].id < b.currentID)
+//@   ensures [C10.sub.inv.distinct] forall i :: 0 <= i && i < len(b.eventChs) ==> b.slot[b.eventChs[i].id] == i
+//@   ensures [C10.sub.closed] old(b.closed.v) != 0 ==> (b.eventChs == old(b.eventChs) && b.currentID == old(b.currentID) && b.slot == old(b.slot))
+//@   ensures [C10.sub.closed.nospawn] wasclosed ==> (spawned == 0 && reg == 0 && b.eventChs == old(b.eventChs) && b.currentID == old(b.currentID))
+//@   ensures [C10.sub.skipped] b.currentID == old(b.currentID) ==> b.closed.v != 0
+//@   ensures [C10.sub.effect] (b.eventChs == old(b.eventChs) && b.currentID == old(b.currentID) && b.slot == old(b.slot)) || (len(b.eventChs) == old(len(b.eventChs)) + 1 && b.currentID == old(b.currentID) + 1)
+//@   ensures [C10.sub.kept] len(b.eventChs) >= old(len(b.eventChs)) && (forall j :: 0 <= j && j < old(len(b.eventChs)) ==> b.eventChs[j] == old(b.eventChs[j]))
+//@   ensures [C10.sub.added] !wasclosed ==> (len(b.eventChs) == old(len(b.eventChs)) + 1 && b.currentID == old(b.currentID) + 1)
+//@   ensures [C10.sub.added.spawn] !wasclosed ==> (spawned == 1 && reg == 1)
+//@   ensures [C10.sub.entry] len(b.eventChs) == old(len(b.eventChs)) + 1 ==> (fresh(b.eventChs[len(b.eventChs) - 1]) && b.eventChs[len(b.eventChs) - 1].id == old(b.currentID) && b.eventChs[len(b.eventChs) - 1].sub == ch && b.eventChs[len(b.eventChs) - 1].npush == 0 && cap(b.eventChs[len(b.eventChs) - 1].ch) > 0)
+
+//@ func (*Batcher).subscribe$1$1
+//@   tags C10
+//@   requires b != nil && !held(b.lock)
+//@   ghost pos int
+//@   ghost ndone int
+//@   ghost nclose int
+//@   at entry ghost pos = -1
+//@   at entry ghost ndone = 0
+//@   at entry ghost nclose = 0
+//@   at every before close assert [C10.exit.closes.sub] arg0 == ch && nclose == 0
+//@   at every close ghost chdone = update(chdone, arg0, true)
+//@   at every close ghost nclose = nclose + 1
+//@   at call Lock#0 label L
+//@   at before call Unlock#0 label U
+//@   loop 0 invariant b == old(b) && heldw(b.lock) && pos == -1 && -1 <= rangeindex && rangeindex < len(b.eventChs) && b.eventChs == at(L, b.eventChs)
+//@   loop 0 invariant [C10.exit.closed.once] nclose == 1
+//@   loop 0 invariant forall j :: 0 <= j && j <= rangeindex ==> b.eventChs[j].id != id
+//@   loop 0 invariant forall j :: 0 <= j && j < len(b.eventChs) ==> b.eventChs[j] == at(L, b.eventChs[j])
+//@   at store eventChs#0 ghost pos = i
+//@   at store eventChs#0 ghost b.slot = (lambda k :: (b.slot[k] > pos ? b.slot[k] - 1 : b.slot[k]))
+//@   at every before call Done assert [C10.exit.done.unlocked] !held(b.lock) && pos >= -1
+//@   at every call Done ghost ndone = ndone + 1
+//@   at every before send assert [C10.exit.nosend] false
+//@   at every select assert [C10.exit.noselect] false
+//@   at every before recv assert [C10.exit.norecv] false
+//@   ensures [C10.exit.closed.sub] chdone[ch]
+//@   ensures [C10.exit.closed.once] nclose == 1
+//@   ensures [C10.exit.done] ndone == 1 && nolocks()
+//@   ensures [C10.exit.absent] pos == -1 ==> ((forall j :: 0 <= j && j < at(L, len(b.eventChs)) ==> at(L, b.eventChs[j].id) != id) && at(U, b.eventChs) == at(L, b.eventChs))
+//@   ensures [C10.exit.removed] pos >= 0 ==> (pos < at(L, len(b.eventChs)) && at(L, b.eventChs[pos].id) == id && at(U, len(b.eventChs)) == at(L, len(b.eventChs)) - 1)
+//@   ensures [C10.exit.before] pos >= 0 ==> (forall j :: 0 <= j && j < pos ==> at(U, b.eventChs[j]) == at(L, b.eventChs[j]))
+//@   ensures [C10.exit.after] pos >= 0 ==> (forall j :: pos <= j && j < at(U, len(b.eventChs)) ==> at(U, b.eventChs[j]) == at(L, b.eventChs[j + 1]))
+//@   ensures [C10.exit.others] pos >= 0 ==> (forall j :: (0 <= j && j < at(L, len(b.eventChs)) && j != pos) ==> at(L, b.eventChs[j].id) != id)
+//@   ensures [C10.exit.gone] forall j :: 0 <= j && j < at(U, len(b.eventChs)) ==> at(U, b.eventChs[j].id) != id
+
+//@ func (*Batcher).subscribe$1
+//@   tags C10
+//@   opt go=detached
+//@   requires b != nil && ctx != nil
+//@   requires [C10.fwd.bound] len(b.eventChs) > 0 && b.eventChs[len(b.eventChs) - 1].id == id && b.eventChs[len(b.eventChs) - 1].ch == bufferedCh && b.eventChs[len(b.eventChs) - 1].sub == ch
+//@   ghost nrecv int
+//@   ghost recvd [int]tp
+//@   ghost lastsent int
+//@   ghost nsends int
+//@   ghost stopseen bool
+//@   ghost got bool
+//@   ghost nexit int
+//@   at entry ghost nrecv = 0
+//@   at entry ghost lastsent = -1
+//@   at entry ghost nsends = 0
+//@   at entry ghost stopseen = false
+//@   at entry ghost nexit = 0
+//@   at every select assert [C10.fwd.sends.own] forall c :: selhassend(c) ==> c == ch
+//@   loop 0 invariant b == old(b) && ctx == old(ctx) && ch == old(ch) && bufferedCh == old(bufferedCh) && id == old(id)
+//@   loop 0 invariant nolocks() && nexit == 0
+//@   loop 0 invariant [C10.fwd.inv] lastsent < nrecv && nsends <= nrecv
+//@   at select#0 assert [C10.fwd.listens] selblocking && selcases == 3 && selhas(ctx.donech) && selhas(b.closeCh) && selhas(bufferedCh) && (forall c :: !selhassend(c))
+//@   at select#0 assume (res0 >= 0 && !selsend && (selchan == ctx.donech || selchan == b.closeCh)) ==> chdone[selchan]
+//@   at select#0 ghost stopseen = (res0 >= 0 && !selsend && (selchan == ctx.donech || selchan == b.closeCh))
+//@   at select#0 ghost got = (res0 >= 0 && !selsend && selchan == bufferedCh)
+//@   at select#1 assert [C10.fwd.received] got
+//@   at select#1 ghost recvd = update(recvd, nrecv, env)
+//@   at select#1 ghost nrecv = nrecv + 1
+//@   at select#1 assert [C10.fwd.offers] selblocking && selcases == 3 && selhas(ctx.donech) && selhas(b.closeCh) && selhassend(ch)
+// forwards exactly the value just received, each received value at most once, in receive order
+//@   at select#1 assert [C10.fwd.samevalue] (res0 >= 0 && selsend) ==> (selsendval == recvd[nrecv - 1] && lastsent < nrecv - 1)
+//@   at select#1 ghost lastsent = (res0 >= 0 && selsend) ? nrecv - 1 : lastsent
+//@   at select#1 ghost nsends = nsends + ((res0 >= 0 && selsend) ? 1 : 0)
+//@   ghost allsends int
+//@   at entry ghost allsends = 0
+//@   at every select ghost allsends = allsends + ((res0 >= 0 && selsend) ? 1 : 0)
+//@   loop 0 invariant [C10.fwd.inv.sends] allsends == nsends
+//@   at every before send assert [C10.fwd.nobaresend] false
+//@   at every before recv assert [C10.fwd.nobarerecv] false
+//@   at every before close assert [C10.fwd.noclose] false
+//@   at every before call subscribe$1$1 assert [C10.fwd.exit] stopseen && (chdone[ctx.donech] || chdone[b.closeCh])
+//@   at every call subscribe$1$1 ghost nexit = nexit + 1
+//@   ensures [C10.fwd.exits] nexit == 1 && chdone[ch] && nolocks()
+//@   ensures [C10.fwd.order] allsends == nsends && nsends <= nrecv && lastsent < nrecv
+
+//@ func (*Batcher).Subscribe
+//@   tags C10
+//@   requires b != nil && ctx != nil
+//@   ghost ncalls int
+//@   at entry ghost ncalls = 0
+//@   at call Lock#0 label L
+//@   at before call Unlock#0 label U
+//@   loop 0 invariant b == old(b) && ctx == old(ctx) && ch == old(ch) && heldw(b.lock) && -1 <= rangeindex && rangeindex < len(ch) && ncalls == rangeindex + 1
+//@   loop 0 invariant [C10.subscribe.inv.entries] forall i :: 0 <= i && i < len(b.eventChs) ==> (b.eventChs[i] != nil && allocated(b.eventChs[i]) && b.eventChs[i].id < b.currentID)
+//@   loop 0 invariant [C10.subscribe.inv.distinct] forall i :: 0 <= i && i < len(b.eventChs) ==> b.slot[b.eventChs[i].id] == i
+//@   loop 0 invariant [C10.subscribe.inv.len] len(b.eventChs) <= at(L, len(b.eventChs)) + ncalls && at(L, len(b.eventChs)) <= len(b.eventChs) && (len(b.eventChs) == at(L, len(b.eventChs)) + ncalls || b.closed.v != 0)
+//@   loop 0 invariant [C10.subscribe.inv.closed] old(b.closed.v) != 0 ==> (b.closed.v != 0 && len(b.eventChs) == at(L, len(b.eventChs)))
+//@   loop 0 invariant [C10.subscribe.inv.kept] forall j :: 0 <= j && j < at(L, len(b.eventChs)) ==> b.eventChs[j] == at(L, b.eventChs[j])
+//@   loop 0 invariant [C10.subscribe.inv.new] forall j :: at(L, len(b.eventChs)) <= j && j < len(b.eventChs) ==> (b.eventChs[j].sub == ch[j - at(L, len(b.eventChs))] && b.eventChs[j].npush == 0)
+//@   at every before call subscribe assert [C10.subscribe.each] arg1 == ctx && arg2 == ch[ncalls]
+//@   at every call subscribe ghost ncalls = ncalls + 1
+//@   at every before send assert [C10.subscribe.nosend] false
+//@   at every select assert [C10.subscribe.noselect] false
+//@   at every before recv assert [C10.subscribe.norecv] false
+//@   at every before close assert [C10.subscribe.noclose] false
+//@   ensures [C10.subscribe.all] ncalls == len(ch) && nolocks()
+//@   ensures [C10.subscribe.closed] old(b.closed.v) != 0 ==> (at(U, len(b.eventChs)) == at(L, len(b.eventChs)))
+//@   ensures [C10.subscribe.kept] forall j :: 0 <= j && j < at(L, len(b.eventChs)) ==> at(U, b.eventChs[j]) == at(L, b.eventChs[j])
+//@   ensures [C10.subscribe.added] at(U, len(b.eventChs)) == at(L, len(b.eventChs)) + len(ch) || b.closed.v != 0
+//@   ensures [C10.subscribe.atmost] at(L, len(b.eventChs)) <= at(U, len(b.eventChs)) && at(U, len(b.eventChs)) <= at(L, len(b.eventChs)) + len(ch)
+//@   ensures [C10.subscribe.order] forall j :: at(L, len(b.eventChs)) <= j && j < at(U, len(b.eventChs)) ==> (at(U, b.eventChs[j].sub) == ch[j - at(L, len(b.eventChs))] && at(U, b.eventChs[j].npush) == 0)
